@@ -34,6 +34,9 @@ Step(L, over, a, b) ==
 \* however a mission object was made - constructor, TOML-like dictionary, database query result - its great-circle
 \* distance is the length of the ground track between its airports (a schedule's stated distance is not it)
 MissionEntries == {"constructor", "from_toml", "from_query_result"}
+\* a coordinate is a number: a way point at whole degrees may be given as 48 or as 48.0 - the distances along the
+\* track are lengths in metres either way, never whole numbers of anything
+CoordForms == {"float", "whole", "numpy_whole"}
 
 VARIABLES c, o, st
 vars == <<c, o, st>>
